@@ -22,7 +22,7 @@ RECHECK_MOD = 41
 SWITCHES = ['show_timestamp', 'show_name', 'show_func_qual', 'show_tid', 'show_process', 'show_args']
 PROBES = ['cli_lines_compared', 'terminate_names_declared_thread', 'huge_thread_id', 'earlier_request_other_object', 'undeclared_thread', 'thread_declared_by_newthread_record', 'mapping_superseded_by_terminate_pid', 'mapping_superseded_by_sampler',
           'process_renamed_by_exec', 'window_straddles_update', 'earlier_request_other_dump', 'all_64_configs', 'colour_compared',
-          'callstack_lines', 'log_lines', 'wallclock_timestamps', 'kevents_superseded_thread']
+          'callstack_lines', 'log_lines', 'log_record_supersedes_earlier_declaration', 'wallclock_timestamps', 'kevents_superseded_thread']
 RULE = ('one run = one simulated dump (2..4 threads, thread map declaring a subset, map-updating records aimed at other threads, seeded '
         'schedule) listed as events / traces / callstacks / logs under 14 (quick) or all 64 (thorough) column configurations, colour on and '
         'off; non-trivial = >= 1 trace line of a thread whose mapping changes inside or before its window, or of an undeclared thread; '
@@ -46,7 +46,7 @@ def _configs(tier, rng_choice):
 
 def generate(rng, index, tier):
     if index % 301 == 31:
-        n = worlds.dict_size(rng, 70000) or 3000
+        n = worlds.dict_size(rng, 70000, k=index // 301) or 3000
         if (index // 301) % 2 == 0:
             # thread 700 announces a process, then a named count of other threads announce theirs, then 700's name arrives
             first = {'tid': 700, 'ops': [worlds.op_exec(rng, 77, 'child'), {'k': 'sys', 'name': 'BSC_getpid', 's': [0, 0, 0, 0], 'e': [0, 5, 0, 0], 'in': []}]}
@@ -121,6 +121,14 @@ def generate(rng, index, tier):
     sched = draw_sensitive(rng, per, tool.codes()) if shape == 'sensitive' else kernel.draw_schedule(rng, per, shape)
     version = rng.pick([2, 2, 3])
     w = worlds.gen_writer(rng, version, threads, sum(len(p) for p in per), logs=True)
+    for b_ in w.get('blocks', []):
+        if b_['kind'] == 'logs' and len(b_['payload']['Events']) >= 2 and rng.chance(0.6):
+            # several log records of one thread that declare different processes for it, one after the other
+            t_ = rng.pick([x for x in tids if x] or [4242])
+            for ev_ in b_['payload']['Events']:
+                if 'p' in ev_:
+                    ev_['tid'] = t_
+                    ev_['pid'] = rng.pick([1, 77, 4242, pids.get(t_, 5)])
     names = {0: ''} if zero_slot else {}
     w['tmap'] = [[t, pids[t], names.setdefault(pids[t], rng.ident(2, 12)), rng.pick(['', '', 'ff41', '726f787900', '00414243'])] for t in declared]
     if rng.chance(0.3):
@@ -375,6 +383,43 @@ def execute(scn):
                     'line %d (tid %d, records %d..%d): process column %r; the dump declares %r within that window%s' % (
                         li, tid, lo, hi, seg, sorted(texts), ' or nothing' if unknown_ok else ''))
                 break
+        elif kind == 'logs' and n:
+            # a log line names the process that the dump has declared for the record's thread up to and including that record
+            # (thread map, then every earlier log record that names a process and a thread, then the record itself)
+            w_ = dump['writer']
+            strings_ = {}
+            raw_logs = []
+            for b in w_.get('blocks', []):
+                if b['kind'] == 'strings':
+                    strings_ = {v: k for k, v in b['payload']['StringIndex'].items()}
+            for b in w_.get('blocks', []):
+                if b['kind'] == 'logs':
+                    raw_logs += b['payload']['Events']
+            if len(raw_logs) == n:
+                ltp, lpn = worlds.tmap_model(w_.get('tmap', []))
+                superseded = False
+                for li, ev in enumerate(raw_logs):
+                    name = strings_.get(ev['p'], '') if 'p' in ev else ''
+                    if name and ev.get('tid'):
+                        if 'pid' not in ev:
+                            break        # (what a record without a pid declares is left open, see C03)
+                        if ltp.get(ev['tid'], ev['pid']) != ev['pid'] or lpn.get(ev['pid'], name) != name:
+                            superseded = True
+                        ltp[ev['tid']] = ev['pid']
+                        lpn[ev['pid']] = name
+                    seg = proc_segs[li].strip()
+                    if not name:
+                        wantp = ''
+                    else:
+                        pid_ = ltp.get(ev['tid'], -1)
+                        wantp = ('%s(%d)' % (lpn.get(pid_, ''), pid_)) if pid_ != -1 else 'Error: tid %d' % ev['tid']
+                    if seg != wantp.strip():
+                        bad('process-column', 'logs:wrong-process', 'log line %d (tid %d): process column %r; the dump declares %r at that point' % (
+                            li, ev['tid'], seg, wantp))
+                        break
+                if superseded:
+                    bump('probe:log_record_supersedes_earlier_declaration')
+                    nontrivial = True
         elif kind == 'kevents' and n == len(stream):
             for li, r in enumerate(stream):
                 tid = r['t']
